@@ -113,6 +113,7 @@ class Unit:
         self.tpl_text_all = ''
         self.assumed = []           # scan results
         self.listed_fns = {}        # (file, impl selector) -> set of fn names extracted (coverage)
+        self.literals = {}
 
     # ---------------------------------------------------------------- template
     def load_tpl(self, path, seen=None):
@@ -161,6 +162,8 @@ class Unit:
                 self.renames[a] = b
             elif cmd in ('fn', 'sig', 'item'):
                 self.do_extract(cmd, rest, parse_clauses(clause_lines), path, ln, indent)
+            elif cmd == 'strlits':
+                self.emit_strlits(path, ln)
             elif cmd == 'cover':
                 # //@@ cover <file> :: <impl selector>  -> record all fn names of that impl for coverage reports
                 f, sel = [x.strip() for x in rest.split('::', 1)]
@@ -173,6 +176,16 @@ class Unit:
                 raise GenError('%s:%d unknown directive %s' % (path, ln, cmd))
             i = j
         return self.finish()
+
+    def emit_strlits(self, path, ln):
+        """R4 companion: for every ASCII string literal seen in extracted text, a *proved* lemma giving its chars and UTF-8 bytes"""
+        self.emit('pub proof fn lit_empty()\n    ensures ""@.len() == 0, vstd::utf8::encode_utf8(""@).len() == 0,\n{\n    reveal_strlit("");\n    assert(""@ =~= Seq::<char>::empty());\n    assert(vstd::utf8::is_ascii_chars(""@));\n    vstd::utf8::is_ascii_chars_encode_utf8(""@);\n}\n', ('tpl', path, ln))
+        for tok, v in sorted(self.literals.items()):
+            name = 'lit_' + (v if re.fullmatch(r'[A-Za-z0-9_]+', v) else 'x' + v.encode().hex())
+            chars = ', '.join("'%s'" % (ch if ch not in "'\\" else '\\' + ch) for ch in v)
+            bts = ', '.join(('%du8' % b) if i == 0 else str(b) for i, b in enumerate(v.encode()))
+            self.emit('pub proof fn %s()\n    ensures %s@ =~= seq![%s], %s@.len() == %d, vstd::utf8::encode_utf8(%s@) =~= seq![%s], vstd::utf8::encode_utf8(%s@).len() == %d,\n{\n    reveal_strlit(%s);\n    let s = %s@;\n    assert(s =~= seq![%s]);\n    assert(vstd::utf8::is_ascii_chars(s));\n    vstd::utf8::is_ascii_chars_encode_utf8(s);\n}\n'
+                      % (name, tok, chars, tok, len(v), tok, bts, tok, len(v), tok, tok, chars), ('tpl', path, ln))
 
     # ---------------------------------------------------------------- extraction
     def do_extract(self, cmd, rest, clauses, tplpath, tplline, indent):
@@ -327,6 +340,15 @@ class Unit:
                     self.manual.append(entry); cnt('manual-replace')
                 rec.manual.append(entry)
 
+        for k in range(item.start, item.end):
+            t = toks[k]
+            if t.kind == 'string' and t.text.startswith('"'):
+                try:
+                    v = eval_str_literal(t.text)
+                except Exception:
+                    v = None
+                if v is not None and v != '' and all(32 <= ord(ch) < 127 for ch in v) and len(v) <= 24:
+                    self.literals[t.text] = v
         rec.rewrites = local_counts
         # ---- build output
         pieces = self.apply_edits(src, s_off, e_off, edits, rel)
@@ -624,6 +646,33 @@ class Unit:
                 loops.append({'kind': t.text, 'kw': j, 'body': b, 'in': in_tok})
             j += 1
         rec.loops = [l['kind'] for l in loops]
+        # R5: desugar `for P in E { B }` (body contains `continue`) into the reference `loop { match it.next() .. }` form
+        for o in opts:
+            mm = re.match(r'r5:(\d+)$', o)
+            if not mm:
+                continue
+            n = int(mm.group(1))
+            if n >= len(loops) or loops[n]['kind'] != 'for' or loops[n]['in'] is None:
+                raise GenError('contract needs re-anchoring: R5 loop %d of %s is not a for loop' % (n, rec.selector))
+            L = loops[n]
+            pat = src.text[toks[L['kw']].end:toks[L['in']].start].strip()
+            expr = src.text[toks[L['in']].end:toks[L['body']].start].strip()
+            # prefix goes before the label if any
+            kwi = L['kw']
+            pv = self.prev_sig(toks, kwi, body)
+            if pv is not None and toks[pv].text == ':':
+                pv2 = self.prev_sig(toks, pv, body)
+                if pv2 is not None and toks[pv2].kind == 'lifetime':
+                    kwi = pv2
+            v = 'vf_it%d' % n
+            edits.append(Edit(toks[kwi].start, toks[kwi].start,
+                              '{ let mut %s = IntoIterator::into_iter(%s); let ghost %s_rem0 = %s.remaining(); let ghost mut %s_idx: int = 0; /* R5 */ ' % (v, expr, v, v, v), None, prio=-3))
+            edits.append(Edit(toks[L['kw']].start, toks[L['body']].start, 'loop '))
+            edits.append(Edit(toks[L['body']].end, toks[L['body']].end,
+                              ' let %s = match %s.next() { Some(vf_v) => vf_v, None => break }; proof { %s_idx = %s_idx + 1; } /* R5 */' % (pat, v, v, v), None, prio=-3))
+            edits.append(Edit(toks[br[L['body']]].end, toks[br[L['body']]].end, ' } /* R5 */', None, prio=9))
+            L['kind'] = 'loop'
+            cnt('R5')
         for c in clauses:
             if c[0] in ('loop', 'forlabel'):
                 mm = re.match(r'(\d+)\s*:\s*(.*)$', c[1], re.S)
@@ -751,8 +800,14 @@ class Unit:
                             lead = len(seg) - len(seg.lstrip())
                             line_map[line] = {'k': 'src', 'file': origin[1], 'line': srcobj.line_of(origin[2] + off + lead)}
                         elif origin[0] == 'spec':
-                            # find which template line within the clause
+                            # which template line within the clause: count newlines inside this piece
                             tl = origin[2]
+                            if len(origin) > 3 and origin[3]:
+                                nl = text[:off].count('\n')
+                                lead_nl = len(text) - len(text.lstrip('\n'))
+                                kidx = nl - lead_nl
+                                if 0 <= kidx < len(origin[3]):
+                                    tl = origin[3][kidx]
                             line_map[line] = {'k': 'spec', 'tpl': os.path.relpath(origin[1], os.path.dirname(os.path.dirname(self.tpl_path))), 'line': tl}
                         elif origin[0] == 'tpl':
                             line_map[line] = {'k': 'tpl', 'tpl': os.path.relpath(origin[1], os.path.dirname(os.path.dirname(self.tpl_path))), 'line': origin[2]}
